@@ -381,7 +381,8 @@ def campaign(prop, exe, wd, cases, tag, verdict, known, stats, do_model=True):
                     continue
                 small = shrink_case(prop, exe, wd, c, v) if len(verdict.violations) < 3 else c
                 rp = write_replay(prop.ID, {'property': prop.ID, 'kind': 'oracle-violation', 'what': v, 'case': small,
-                                            'original_case': c, 'impl': ires, 'seed': stats['seed']})
+                                            'original_case': c, 'impl': ires, 'seed': stats['seed'],
+                                            'stream': getattr(prop, 'STREAM', None)})
                 verdict.violation(rp)
         # correspondence
         if c['id'] in model:
@@ -468,9 +469,29 @@ def shrink_case(prop, exe, wd, case, v):
     return cur
 
 
+def substreams(prop):
+    """sub-stream modules of a plugin (`SUBSTREAMS = ['c06_limits', ...]`, modules of tools/props with the plugin interface:
+    own HARNESS binary, COQ_IMPORTS, MODEL_TARGETS, SIZES, generate, model_term, compare, oracle ...; ID = the parent's).
+    They are further correspondence / oracle campaigns of the SAME property over other modelled functions."""
+    subs = []
+    for name in getattr(prop, 'SUBSTREAMS', ()):
+        m = importlib.import_module('props.' + name)
+        m.ID = prop.ID
+        m.STREAM = name
+        subs.append(m)
+    return subs
+
+
+def import_targets_of(mod):
+    return ['theories/%s.vo' % m.replace('.', '/')
+            for line in re.findall(r'From VRP Require Import ([^\n]*?)\.\s*(?:\n|$)', mod.COQ_IMPORTS + '\n')
+            for m in line.split()] + list(getattr(mod, 'MODEL_TARGETS', ())) + list(getattr(mod, 'EXTRA_COQ_TARGETS', ()))
+
+
 def main_check(pid, tier, seed):
     t0 = time.time()
     prop = importlib.import_module('props.' + pid.lower())
+    subs = substreams(prop)
     wd = os.path.join(BUILD, pid)
     os.makedirs(wd, exist_ok=True)
     os.makedirs(EVIDENCE, exist_ok=True)
@@ -482,6 +503,10 @@ def main_check(pid, tier, seed):
 
     # 1. rebuild implementation side from the current tree
     rc, out, exe = build_harness(prop.HARNESS)
+    sub_exe = {}
+    for sub in subs:
+        if rc == 0:
+            rc, out, sub_exe[sub.STREAM] = build_harness(sub.HARNESS)
     if rc != 0:
         log(out[-4000:])
         log('INFRASTRUCTURE: harness / repository does not build; no verdict')
@@ -498,7 +523,8 @@ def main_check(pid, tier, seed):
                       for line in re.findall(r'From VRP Require Import ([^\n]*?)\.\s*(?:\n|$)', prop.COQ_IMPORTS + '\n')
                       for m in line.split()]
     proofs = check_proofs(pid, wd, sorted(set(list(getattr(prop, 'EXTRA_COQ_TARGETS', ())) +
-                                               list(getattr(prop, 'MODEL_TARGETS', ())) + import_targets)))
+                                               list(getattr(prop, 'MODEL_TARGETS', ())) + import_targets +
+                                               [t for sub in subs for t in import_targets_of(sub)])))
     log('[%s] proofs: %d/%d discharged (make %.1fs)' % (pid, proofs['discharged'], proofs['obligations'], proofs.get('make_s', 0)))
     model_ok = True
     if not proofs['ok']:
@@ -519,6 +545,29 @@ def main_check(pid, tier, seed):
         if hasattr(prop, 'extra_checks'):
             prop.extra_checks(dict(exe=exe, wd=wd, tier=tier, rng=rng, verdict=verdict, known=known, stats=stats,
                                    write_replay=write_replay, run_harness=run_harness, repo=REPO))
+        for sub in subs:
+            swd = os.path.join(wd, sub.STREAM)
+            os.makedirs(swd, exist_ok=True)
+            srng0 = SplitMix(seed).fork(pid + '/' + sub.STREAM)
+            sstats = dict(stats, evaluations=0, traces=0, dist={}, samples=[])
+            scorpus = load_corpus(os.path.join(pid, sub.STREAM)) + list(sub.corpus() if hasattr(sub, 'corpus') else [])
+            sdis = []
+            if scorpus:
+                sdis += campaign(sub, sub_exe[sub.STREAM], swd, scorpus, sub.STREAM + '_k', verdict, known, sstats,
+                                 do_model=model_ok or proofs['ok'])
+            sdis += campaign(sub, sub_exe[sub.STREAM], swd, sub.generate(srng0, tier, sub.SIZES[tier]), sub.STREAM + '_g',
+                             verdict, known, sstats, do_model=model_ok or proofs['ok'])
+            for d in sdis:
+                d['stream'] = sub.STREAM
+            disagreements += sdis
+            stats['evaluations'] += sstats['evaluations']
+            stats['traces'] += sstats['traces']
+            for lab, cnt in sstats['dist'].items():
+                stats['dist'][sub.STREAM + ':' + lab] = cnt
+            stats.setdefault('streams', {})[sub.STREAM] = {
+                'evaluations': sstats['evaluations'], 'traces_validated_against_impl': sstats['traces'],
+                'disagreements': len(sdis), 'rule': getattr(sub, 'RULE', ''), 'samples': sstats['samples'][:2],
+                'harness': sub.HARNESS}
     except Exception as e:  # noqa
         log('INFRASTRUCTURE: %r\n%s' % (e, traceback.format_exc()))
         return 2
@@ -537,6 +586,11 @@ def main_check(pid, tier, seed):
             cases = prop.generate(srng, 'thorough', prop.SIZES.get('search', prop.SIZES['thorough']))
             before = len(verdict.violations)
             campaign(prop, exe, wd, cases, 's%d_' % r, verdict, known, stats, do_model=hasattr(prop, 'oracle_model') and model_ok)
+            for sub in subs:
+                swd = os.path.join(wd, sub.STREAM)
+                scases = sub.generate(srng.fork(sub.STREAM), 'thorough', sub.SIZES.get('search', sub.SIZES['thorough']))
+                campaign(sub, sub_exe[sub.STREAM], swd, scases, '%s_s%d_' % (sub.STREAM, r), verdict, known, stats,
+                         do_model=hasattr(sub, 'oracle_model') and model_ok)
             if len(verdict.violations) > before:
                 found = True
                 break
@@ -574,6 +628,9 @@ def main_check(pid, tier, seed):
     }
     if gen_info:
         cov['generated'] = gen_info
+    if stats.get('streams'):
+        cov['streams'] = stats['streams']
+        trusted += [t for sub in subs for t in getattr(sub, 'TRUSTED', [])]
     if hasattr(prop, 'extra_coverage'):
         cov.update(prop.extra_coverage())
     ev = {'property_id': pid, 'tier': tier, 'seed': seed, 'level': 'proof', 'coverage': cov,
@@ -592,23 +649,35 @@ def main_check(pid, tier, seed):
     return 1 if verdict.violations else 0
 
 
-def main_replay(pid, path):
+def main_replay(pid, path, stream=None):
     prop = importlib.import_module('props.' + pid.lower())
     wd = os.path.join(BUILD, pid)
+    d = json.load(open(path))
+    # a case of a sub-stream (recorded in the replay file, or the corpus file lies in corpus/<ID>/<stream>/)
+    stream = stream or (d.get('stream') if isinstance(d, dict) else None)
+    for sub in substreams(prop):
+        if stream == sub.STREAM or os.path.basename(os.path.dirname(os.path.abspath(path))) == sub.STREAM:
+            prop, stream = sub, sub.STREAM
+            wd = os.path.join(wd, sub.STREAM)
+    if isinstance(d, dict) and d.get('kind') == 'no-failing-input-found':
+        st = (d.get('broken', [{}])[-1].get('first', [{}]) or [{}])[0].get('stream')
+        for sub in substreams(prop) if st else []:
+            if st == sub.STREAM:
+                prop, stream = sub, sub.STREAM
+                wd = os.path.join(wd, sub.STREAM)
     os.makedirs(wd, exist_ok=True)
     rc, out, exe = build_harness(prop.HARNESS)
     if rc != 0:
         log(out[-3000:])
         return 2
-    d = json.load(open(path))
     if isinstance(d, dict) and d.get('cases') and not d.get('case'):      # a corpus file: replay every case of it
         worst = 0
         for k, c in enumerate(d['cases']):
             tmp = os.path.join(wd, 'replay_case_%d.json' % k)
             json.dump({'case': c}, open(tmp, 'w'))
-            worst = max(worst, main_replay(pid, tmp))
+            worst = max(worst, main_replay(pid, tmp, stream))
         return worst
-    case = d.get('case') or (d.get('broken', [{}])[0].get('first', [{}])[0].get('case'))
+    case = d.get('case') or ([b for b in d.get('broken', [{}]) if b.get('first')] or [{'first': [{}]}])[0]['first'][0].get('case')
     if not case:
         print('replay file names no concrete case:', json.dumps(d.get('broken'), indent=1)[:3000])
         return 0
@@ -641,16 +710,14 @@ def main_setup():
     for pid in claimed:
         mod = importlib.import_module('props.' + pid.lower())
         mods.append(mod)
+        mods += substreams(mod)
         if hasattr(mod, 'regenerate'):
             mod.regenerate(REPO, os.path.join(COQ, 'theories', 'Generated'))
     coq_makefile()
     targets = []
     for mod in mods:
         targets.append('theories/Properties/%s.vo' % mod.ID)
-        targets += list(getattr(mod, 'MODEL_TARGETS', ())) + list(getattr(mod, 'EXTRA_COQ_TARGETS', ()))
-        targets += ['theories/%s.vo' % m.replace('.', '/')
-                    for line in re.findall(r'From VRP Require Import ([^\n]*?)\.\s*(?:\n|$)', mod.COQ_IMPORTS + '\n')
-                    for m in line.split()]
+        targets += import_targets_of(mod)
     rc, out = coq_make(sorted(set(targets)), timeout=3000)
     if rc != 0:
         print(out[-5000:])
